@@ -525,6 +525,8 @@ def run(ctx: Ctx):
     ctx.guard(rule_document_text, ctx, "R-C02-10")
     # every metadata offset is `token.end + <a length measured on the re-joined words>`: that arithmetic needs the words between two tokens to
     # concatenate to exactly the text between them (C12's append_text lemma), and the tokens to come from the very text the offsets index
+    from .c01 import rule_scan_direction
+    ctx.guard(rule_scan_direction, ctx, "R-C02-12")
     from .c12 import _append_text_identity
     at = ctx.repo.func("tokenizers.Tokenizer.append_text")
     if at is not None:
